@@ -674,6 +674,9 @@ func (e *Enc) siteOrdinal(st *Site, instr ssa.Instruction) int {
 			for _, b := range fn.Blocks {
 				for _, in := range b.Instrs {
 					if e.siteMatchesInstr(st, in) {
+						if st.Kind == "call" && e.logOnlyCall(in) {
+							continue // calls that only feed a log statement are not numbered
+						}
 						lst = append(lst, in)
 					}
 				}
